@@ -174,7 +174,7 @@ def monitor_case(ctx, case, labels, cost, do_brute):
 
 def run(ctx):
     rng = np.random.default_rng(ctx.seed)
-    ctx.proof_layer(allowed_axioms=R_AX)
+    ctx.proof_layer(allowed_axioms=R_AX, coq_deps=["Corr/RunViterbi"])
     n = ctx.budget(1500, 6000)
     tmax, kmax = (11, 4) if not ctx.thorough else (40, 10)
     cases = gen_cases(rng, n, tmax, kmax)
@@ -259,10 +259,10 @@ def run(ctx):
             gi = coq_index[j * CH + int(a)]
             case = cases[gi]
             if int(code) == 2:
-                ctx.violation("tie", "model (binary64) and kernel disagree on the cost",
+                ctx.tie_mismatch("Viterbi.binary64", "model (binary64) and kernel disagree on the cost",
                               {"case": describe(case), "impl": [ref[gi][0], float(ref[gi][1]).hex()]})
             elif uniq[gi]:
-                ctx.violation("tie", "model (binary64) and kernel return different labels although the optimum is unique",
+                ctx.tie_mismatch("Viterbi.binary64", "model (binary64) and kernel return different labels although the optimum is unique",
                               {"case": describe(case), "impl": [ref[gi][0], float(ref[gi][1]).hex()]})
             else:
                 strict += 1
